@@ -28,7 +28,7 @@ def model(fn, always=False):
 
 
 def _pytype(v):
-    if isinstance(v, (Sym, FmtStr, SymSeq)) or getattr(v, '_pyvc_model', False):
+    if isinstance(v, (Sym, FmtStr, SymSeq)) or (getattr(type(v), '_pyvc_model', False) is True):
         return v.pytype
     return type(v)
 
@@ -39,7 +39,7 @@ def m_isinstance(interp, obj, cls):
         raise Unsupported("isinstance against a symbolic class")
     if isinstance(cls, tuple):
         return any(m_isinstance(interp, obj, c) for c in cls)
-    if isinstance(obj, (Sym, FmtStr, SymSeq)) or getattr(obj, '_pyvc_model', False):
+    if isinstance(obj, (Sym, FmtStr, SymSeq)) or (getattr(type(obj), '_pyvc_model', False) is True):
         return issubclass(obj.pytype, cls)
     return isinstance(obj, cls)
 
